@@ -170,6 +170,39 @@ func c11Confinement(c *core.Ctx) {
 						if _, isAlloc := x.Addr.(*ssa.Alloc); isAlloc {
 							return
 						}
+						if ia, isIA := x.Addr.(*ssa.IndexAddr); isIA && s.what == "access token" {
+							// the sole operand of fmt.Sprintf("Bearer %s", tok) whose result is the
+							// Authorization header value: the same sink as "Bearer "+tok
+							if al, isAl := ia.X.(*ssa.Alloc); isAl {
+								okSink := false
+								for _, ref := range *al.Referrers() {
+									sl, isSl := ref.(*ssa.Slice)
+									if !isSl {
+										continue
+									}
+									for _, r2 := range *sl.Referrers() {
+										call, isCall := r2.(*ssa.Call)
+										if !isCall || facts.CalleeName(&call.Call) != "fmt.Sprintf" {
+											continue
+										}
+										if f0, isS := facts.ConstString(call.Call.Args[0]); !isS || f0 != "Bearer %s" {
+											continue
+										}
+										for _, r3 := range *call.Referrers() {
+											if hs, isHS := r3.(ssa.CallInstruction); isHS && facts.CalleeName(hs.Common()) == "(net/http.Header).Set" {
+												if k, _ := facts.ConstString(hs.Common().Args[1]); k == "Authorization" {
+													okSink = true
+												}
+											}
+										}
+									}
+								}
+								if okSink {
+									c.OK("C11.R3", key, x.Pos(), "access token -> Authorization header (formatted)")
+									return
+								}
+							}
+						}
 						if ia, isIA := x.Addr.(*ssa.IndexAddr); isIA {
 							// element of a []string literal: fine if that literal is the value of
 							// the form key "refresh_token" in a url.Values literal / map update
